@@ -1,23 +1,3 @@
-/-
-GENERATED by harness/gen_frames.py from harness/templates/frame_body.tpl -- do not edit.
-Frame lemmas: which primitives / operations of the bundler model keep `_descriptors / _descriptor_objs`.
-Lemmas whose statement is false for this relation were removed by the generator; the operations
-without a lemma are exactly `touches`.
--/
-import BlueskyVerif.Lemmas.BundlerBasic
-
-namespace BlueskyVerif.Bundler.KeepsDesc
-open BlueskyVerif.Bundler BlueskyVerif.Bundler.Generated
-
-/-- the projection that is kept -/
-def proj (s : BState) := s.descriptors
-
-def Keeps (_w : World) (s s' : BState) : Prop := proj s' = proj s
-
-theorem Keeps.refl (w : World) (s : BState) : Keeps w s s := rfl
-theorem Keeps.trans (w : World) (a b c : BState) (h1 : Keeps w a b) (h2 : Keeps w b c) : Keeps w a c := Eq.trans h2 h1
-theorem Keeps.of_rfl (w : World) {s s' : BState} (h : proj s' = proj s) : Keeps w s s' := h
-
 theorem keeps_andThen (w : World) (s : BState) (r : Res) (f : BState → Res)
     (h1 : Keeps w s r.st) (h2 : ∀ s', Keeps w s' (f s').st) : Keeps w s (r.andThen f).st :=
   Res.andThen_rel (Keeps w) (Keeps.refl w) (Keeps.trans w) s r f h1 h2
@@ -87,6 +67,13 @@ theorem keeps_ensureAll (w : World) (s : BState) (objs : List Obj) (c : Bool) :
   · exact Keeps.refl w s
   · intro r a h
     exact keeps_andThen w s r _ h (fun s' => keeps_ensureCached w s' a c)
+
+theorem keeps_prepareStream_finish (w : World) (n : Name) (objsDks : List (Obj × List Key)) (s : BState)
+    (uid : Nat) (dk : List Key) (cfg : List (Obj × CfgBlock)) (pre : List CEv) :
+    Keeps w s (prepareStream.finish w n objsDks s uid dk cfg pre).st := by
+  unfold prepareStream.finish
+  simp only
+  split <;> exact (Keeps.of_rfl w rfl)
 
 theorem keeps_prepareStream (w : World) (s : BState) (n : Name) (objsDks : List (Obj × List Key)) :
     Keeps w s (prepareStream w s n objsDks).st := by
@@ -169,6 +156,23 @@ theorem keeps_recordInterruption (w : World) (s : BState) (c : String) : Keeps w
     · split
       · exact Keeps.trans w _ _ _ (keeps_composeEvent ..) (keeps_commit ..)
       · exact keeps_composeEvent ..
+
+theorem keeps_configure (w : World) (s : BState) (o : Obj) : Keeps w s (configure w s o).st := by
+  unfold configure
+  apply keeps_andThen w
+  · exact keeps_cacheReadConfig w s o
+  · intro s'
+    apply keeps_foldl w
+    · exact Keeps.refl w s'
+    · intro r nd h
+      refine keeps_andThen w s' r _ h ?_
+      intro s''
+      split
+      · exact Keeps.refl w s''
+      · split
+        · refine Keeps.trans w _ _ _ ?_ (keeps_prepareStream w _ nd.1 _)
+          exact (Keeps.of_rfl w rfl)
+        · exact Keeps.refl w s''
 
 theorem keeps_declareStream (w : World) (s : BState) (n : Name) (objs : List Obj) (c : Bool) :
     Keeps w s (declareStream w s n objs c).st := by
@@ -347,4 +351,4 @@ theorem keeps_rewind (w : World) (s : BState) : Keeps w s (step w s .rewind).st 
 theorem keeps_clearMonitors (w : World) (s : BState) : Keeps w s (clearMonitors s).st := keeps_dropMonitors w s
 
 --@@STEP@@
-end BlueskyVerif.Bundler.KeepsDesc
+end BlueskyVerif.Bundler.Keeps@@NAME@@
